@@ -105,6 +105,8 @@ inductive Op where
   | sudoAirdrop (c : Coin)
   /-- `Mint {}` by an eligible non-admin buyer with these funds -/
   | mint (funds : List Coin)
+  /-- open edition `UpdateEndTime` (added last, round 3: `Minter.stop` gates `updateMintPrice` and `mintGate`) -/
+  | updateEnd (sender : Addr) (paid : Bool) (t : Nat)
 deriving Repr, DecidableEq
 
 /-- the whitelist contract the minter points to -/
@@ -277,6 +279,24 @@ def updateStart (w : World) (sender : Addr) (paid : Bool) (t : Nat) : Except Err
     else if !w.v.oe && decide (t < GENESIS) then .error .invalid
     else .ok (setMinter w { m with start := t })
 
+/-- `execute_update_end_time` (identical in the three open-edition minters; the vending family has no such message):
+nonpayable, admin, an end time must have been given at creation and must not have passed (`now >= end` refused), the new
+one not in the past (`now > t` refused) and not before the start (`t < start` refused) -/
+def updateEnd (w : World) (sender : Addr) (paid : Bool) (t : Nat) : Except Err World :=
+  match w.m with
+  | none => .error .notFound
+  | some m =>
+    if !w.v.oe then .error .invalid
+    else if !adminOk m sender paid then .error .unauthorized
+    else
+      match m.stop with
+      | none => .error .invalid
+      | some e =>
+        if e ≤ w.now then .error .tooLate
+        else if w.now > t then .error .invalid
+        else if t < m.start then .error .invalid
+        else .ok (setMinter w { m with stop := some t })
+
 def newWl (w : World) (price : Coin) (start stop : Nat) : Except Err World :=
   if start > stop then .error .invalid
   else if w.now ≥ start then .error .tooLate
@@ -313,6 +333,7 @@ def step (w : World) : Op → Except Err World
   | .sudoMin c => sudoMin w c
   | .sudoAirdrop c => sudoAirdrop w c
   | .mint f => mintOp w f
+  | .updateEnd s paid t => updateEnd w s paid t
 
 /-- transactions are atomic: a failed message leaves the state unchanged -/
 def step' (w : World) (op : Op) : World :=
